@@ -28,18 +28,20 @@ type Backend interface {
 
 type inmemBackend struct{ st kvs.Storage }
 
-func NewInmem() Backend                      { return &inmemBackend{} }
-func (b *inmemBackend) Name() string         { return "inmem" }
-func (b *inmemBackend) Fresh() kvs.Storage   { b.st = inmem.New(); return b.st }
+func NewInmem() Backend                        { return &inmemBackend{} }
+func (b *inmemBackend) Name() string           { return "inmem" }
+func (b *inmemBackend) Fresh() kvs.Storage     { b.st = inmem.New(); return b.st }
 func (b *inmemBackend) NewClient() kvs.Storage { return b.st }
-func (b *inmemBackend) Close()               {}
+func (b *inmemBackend) Close()                 {}
 
 // RedisBackend drives kvs/redis against an in-process miniredis.
 type RedisBackend struct {
 	mr      *miniredis.Miniredis
 	clients []interface{ Close() error }
 	// Sched: every command leaving a client connection is a scheduling point.
-	Sched bool
+	Sched   bool
+	first   kvs.Storage
+	lastNew kvs.Storage
 }
 
 func NewRedis(sched bool) *RedisBackend {
@@ -83,6 +85,7 @@ func (b *RedisBackend) NewClient() kvs.Storage {
 		}
 	}
 	st := kredis.New(opts)
+	b.lastNew = st
 	if c, ok := st.(interface{ Close() error }); ok {
 		b.clients = append(b.clients, c)
 	}
@@ -90,6 +93,16 @@ func (b *RedisBackend) NewClient() kvs.Storage {
 }
 
 func (b *RedisBackend) Fresh() kvs.Storage {
+	if !b.Sched && b.first != nil {
+		// sequential use: keep the connection, only empty the server
+		b.mr.FlushAll()
+		return b.first
+	}
+	defer func() {
+		if !b.Sched {
+			b.first = b.lastNew
+		}
+	}()
 	for _, c := range b.clients {
 		c.Close()
 	}
